@@ -38,16 +38,6 @@ func runC05(c *Ctx) {
 	c05Current(c)
 }
 
-func balloonSnapshotAllocs(fn *ssa.Function) []*ssa.Alloc {
-	var out []*ssa.Alloc
-	eachInstr(fn, func(in ssa.Instruction) {
-		if al, ok := in.(*ssa.Alloc); ok && namedIs(deref(al.Type()), pkgBalloon, "Snapshot") {
-			out = append(out, al)
-		}
-	})
-	return out
-}
-
 func c05Counter(c *Ctx) {
 	p := c.P
 	for _, nm := range []string{"Add", "AddBulk"} {
@@ -84,13 +74,12 @@ func c05Counter(c *Ctx) {
 		if nm == "Add" {
 			ok := false
 			var vs string
-			for _, al := range balloonSnapshotAllocs(fn) {
-				_, bf := p.storesTo(al)
-				if len(bf["Version"]) == 1 {
-					t := p.X(p.TermOf(bf["Version"][0]))
+			for _, bs := range rg.Built(pkgBalloon, "Snapshot") {
+				if len(bs.Fields["Version"]) == 1 {
+					t := p.X(bs.Fields["Version"][0])
 					vs = t.String()
 					// the value read before the increment: the load precedes the store
-					if isVer(t) && len(stores) == 1 && preAdvanceRead(p, rg, rg.sites[fn][0], bf["Version"][0], stores[0], 0) {
+					if isVer(t) && len(stores) == 1 && preAdvanceRead(p, rg, bs.Site, bs.Vals["Version"][0], stores[0], 0) {
 						ok = true
 					}
 				}
@@ -105,6 +94,9 @@ func c05Counter(c *Ctx) {
 func preAdvanceRead(p *Program, rg *Region, site regionSite, v ssa.Value, store regionInstr, depth int) bool {
 	if depth > 3 {
 		return false
+	}
+	if cs, cv, ok := rg.CallerValue(site, v); ok {
+		return preAdvanceRead(p, rg, cs, cv, store, depth+1)
 	}
 	// look through a captured local (the goroutine captures `version`)
 	if u, isU := v.(*ssa.UnOp); isU {
@@ -170,11 +162,11 @@ func c05BulkIndex(c *Ctx) {
 	// snapshots
 	okS := false
 	var why string
-	for _, al := range balloonSnapshotAllocs(fn) {
-		_, bf := p.storesTo(al)
+	for _, bs := range p.RegionOf(fn, 2).Built(pkgBalloon, "Snapshot") {
+		bf := bs.Fields
 		get := func(f string) *Term {
 			if len(bf[f]) == 1 {
-				return p.XAll(p.TermOf(bf[f][0]), func(g *ssa.Function) bool { return g == hiAB || g == hyAB })
+				return p.XAll(bf[f][0], func(g *ssa.Function) bool { return g == hiAB || g == hyAB })
 			}
 			return mk("unknown", f, nil)
 		}
